@@ -74,6 +74,10 @@ type G struct {
 	p   Profile
 	dcl Cls // class of raw dataset values
 	w   Window
+	// prev holds the (name, matchers) of the selectors generated so far; later
+	// selectors are sometimes derived from them (identical, or with one more
+	// matcher) so that selects are shared, merged and propagated.
+	prev [][2]string
 }
 
 func NewG(t *rapid.T, q QCtx, p Profile, dataCls Cls, w Window) *G {
@@ -126,8 +130,23 @@ func (g *G) selectorCore() string {
 	if g.p.Nameless && chance(g.t, 1, 3, "nameless") {
 		return pick(g.t, []string{`{a=~".+"}`, `{b="2"}`, `{__name__=~"m|n"}`, `{a="1",c!=""}`, `{__name__=~".+",b!="1"}`, `{__name__=~"m.*"}`, `{__name__=~"(m|n|k)2?"}`}, "namelesssel")
 	}
-	name := pick(g.t, g.p.Metrics, "selmetric")
-	m := g.matchers()
+	var name, m string
+	if len(g.prev) > 0 && chance(g.t, 1, 3, "related") {
+		base := pick(g.t, g.prev, "relatedto")
+		name, m = base[0], base[1]
+		if chance(g.t, 1, 2, "narrow") {
+			extra := g.matchers()
+			if extra != "" && m != "" {
+				m += "," + extra
+			} else if extra != "" {
+				m = extra
+			}
+		}
+	} else {
+		name = pick(g.t, g.p.Metrics, "selmetric")
+		m = g.matchers()
+	}
+	g.prev = append(g.prev, [2]string{name, m})
 	if m == "" {
 		return name
 	}
